@@ -19,6 +19,8 @@ struct MType {
     void (*const* store_ct)(void* p, const void* reg);
     void (*const* aligned_store_ct)(void* p, const void* reg);
     void (*const* gather_ct)(const void* p, const void* idx, void* reg);
+    // gather<N>(ptr, idx) with the vector type DEDUCED from the pointer type: a second gather family that only some types have (null otherwise)
+    void (*const* gather_ded)(const void* p, const void* idx, void* reg);
     void (*const* scatter_ct)(void* p, const void* reg, const void* idx);
     // default forms load<V>(p), store(p, v) ... (N defaults to width)
     void (*load_def)(const void* p, void* reg);
@@ -33,9 +35,9 @@ struct MType {
     void (*const* extract)(const void* reg, void* scalar);            // indexed by I in 0..width-1
     void (*const* insert)(const void* reg, const void* scalar, void* out);
 };
-struct PfOps {   // prefetch: [write][level] ; typed overloads with element sizes 1,4,8,64
+struct PfOps {   // prefetch: [write][level] ; typed overloads by element size
     void (*untyped[2][3])(const void* p, std::size_t n);
-    void (*typed[2][3][4])(const void* p, std::size_t n);
+    void (*typed[2][3][7])(const void* p, std::size_t n);   // element sizes 1, 4, 8, 64 and - larger than any cache line - 72, 200, 4096
     void (*untyped_default[2])(const void* p);   // prefetch_read(p) with defaulted level and n
     unsigned line[3];
 };
